@@ -642,6 +642,33 @@ def r8_mount_identity_available(ctx):
     return out
 
 
+def r9_constructors_always_try(ctx):
+    """'privileged callers get a private instance': whether a private instance can be had is found out by trying, every
+    time -- no constructor gives up before its own system call because of something remembered from an earlier call
+    (a cached 'unsupported' decided while an unprivileged thread, a full fd table or a seccomp'd sibling first used
+    the library would pin every later handle to the host's /proc)."""
+    F = ctx.facts
+    out = []
+    for fn, sc in ((PH + "::new_fsopen", "syscalls::fsopen"), (PH + "::new_open_tree", "syscalls::open_tree"), (PH + "::new_unsafe_open", "syscalls::openat")):
+        key = "%s:always-tries" % fn.split("::")[-1]
+        if not F.has(fn):
+            out.append(violated("C06.R9", key, "", "%s not found" % fn))
+            continue
+        b = F.body(fn)
+        cfg = cfg_of(b)
+        calls = list(b.calls(sc))
+        if not calls:
+            out.append(violated("C06.R9", key, b.where(), "%s no longer calls %s" % (fn, sc)))
+            continue
+        rets = set(cfg.return_blocks())
+        bypass = set(cfg.reachable(cfg.entry, cut_nodes=[c.bb for c in calls])) & rets
+        if bypass:
+            out.append(violated("C06.R9", key, b.where(), "%s can return without attempting %s: the decision not to try does not come from this call's own attempt" % (fn.split("::")[-1], sc)))
+        else:
+            out.append(holds("C06.R9", key, calls[0].where(), "every path through %s attempts %s" % (fn.split("::")[-1], sc)))
+    return out
+
+
 RULES = [
     ("C06.R7", r7_base_through_resolver, 3, False),
     ("C06.R1", r1_open_verified, 3, False),
@@ -651,4 +678,5 @@ RULES = [
     ("C06.R5", r5_constructors, 7, False),
     ("C06.R6", r6_constructor_order, 2, False),
     ("C06.R8", r8_mount_identity_available, 2, False),
+    ("C06.R9", r9_constructors_always_try, 3, False),
 ]
